@@ -258,8 +258,24 @@ fn clean_paragraph() -> BoxedStrategy<String> {
     .boxed()
 }
 
+/// two over-long sentences that are equal except in the middle
+fn twin_long_sentences() -> BoxedStrategy<String> {
+    (proptest::collection::vec(g::plain_word(), 18..24), g::plain_word(), g::plain_word(), proptest::collection::vec(g::plain_word(), 18..24), g::sel_str(&[" ", "\n\n"]))
+        .prop_map(|(a, m1, m2, b, sep)| {
+            let head = a.join(" ");
+            let tail = b.join(" ");
+            let cap = |s: &str| {
+                let mut c = s.chars();
+                c.next().map(|f| f.to_uppercase().collect::<String>() + c.as_str()).unwrap_or_default()
+            };
+            format!("{} and {m1} with the {tail}.{sep}{} and {m2} with the {tail}.", cap(&head), cap(&head))
+        })
+        .boxed()
+}
+
 fn ignore_strategy() -> BoxedStrategy<IgnoreCase> {
     let text = prop_oneof![
+        1 => twin_long_sentences(),
         5 => repeated_problem_text(),
         3 => g::text().prop_map(|t| t.trim().to_string()),
         1 => (repeated_problem_text(), g::sentence()).prop_map(|(a, b)| format!("{a} {}", b.trim())),
